@@ -5,7 +5,7 @@
      inside   the point-in-region test of a tile centre (Web-Mercator, even-odd over rings with holes). *)
 From Coq Require Import NArith ZArith List Bool Lia.
 Import ListNotations.
-From PM Require Import Model.TileId Model.Hilbert Model.F64 Model.Region Proofs.HilTop Proofs.Region Proofs.E7Glue.
+From PM Require Import Model.TileId Model.Hilbert Model.F64 Model.Region Proofs.HilTop Proofs.Region Proofs.E7Glue Proofs.E7Center.
 Open Scope N_scope.
 
 (* between the first and the last boundary tile a tile off the boundary is in the filled interior exactly when its centre is
@@ -71,6 +71,37 @@ Proof.
   - right. apply Hmax. left. reflexivity.
 Qed.
 
+(* header centre: the two centre fields are the truncated E7 values of the float64 midpoint of the bounding box; each is within one
+   unit of the exact midpoint, which is a whole or half number of units: |2 * field - (min + max) * 10^(7-k)| <= 2 *)
+Theorem C16_header_center : forall k lo0 los la0 las, (k <= 7)%nat ->
+  let lons := lo0 :: los in let lats := la0 :: las in
+  let s := (10 ^ (7 - Z.of_nat k))%Z in
+  (forall v, In v (lons ++ lats) -> (- 2^31 + 1 < v * s < 2^31 - 1)%Z) ->
+  match region_header k lons lats with
+  | [_; _; _; _; cx; cy] =>
+      (Z.abs (2 * cx - (zmin_list lons lo0 + zmax_list lons lo0) * s) <= 2 /\
+       Z.abs (2 * cy - (zmin_list lats la0 + zmax_list lats la0) * s) <= 2)%Z
+  | _ => False
+  end.
+Proof.
+  intros k lo0 los la0 las Hk lons lats s Hr. unfold region_header. cbv zeta.
+  assert (Hmin : forall l d, In d l -> In (zmin_list l d) l).
+  { intros l. unfold zmin_list. assert (G : forall l0 acc, In (fold_left Z.min l0 acc) l0 \/ fold_left Z.min l0 acc = acc).
+    { induction l0 as [|x r IH]; intro acc; cbn; [right; reflexivity|]. destruct (IH (Z.min acc x)) as [H|H]; [left; right; exact H|].
+      rewrite H. destruct (Z.min_spec acc x) as [[_ E]|[_ E]]; rewrite E; [right; reflexivity|left; left; reflexivity]. }
+    intros d Hd. destruct (G l d) as [H|H]; [exact H|rewrite H; exact Hd]. }
+  assert (Hmax : forall l d, In d l -> In (zmax_list l d) l).
+  { intros l. unfold zmax_list. assert (G : forall l0 acc, In (fold_left Z.max l0 acc) l0 \/ fold_left Z.max l0 acc = acc).
+    { induction l0 as [|x r IH]; intro acc; cbn; [right; reflexivity|]. destruct (IH (Z.max acc x)) as [H|H]; [left; right; exact H|].
+      rewrite H. destruct (Z.max_spec acc x) as [[_ E]|[_ E]]; rewrite E; [left; left; reflexivity|right; reflexivity]. }
+    intros d Hd. destruct (G l d) as [H|H]; [exact H|rewrite H; exact Hd]. }
+  split; apply e7_center; try exact Hk; apply Hr; apply in_or_app.
+  - left. apply Hmin. left. reflexivity.
+  - left. apply Hmax. left. reflexivity.
+  - right. apply Hmin. left. reflexivity.
+  - right. apply Hmax. left. reflexivity.
+Qed.
+
 (* non-vacuity: a boundary ring around tile (2,1,1) at zoom 2 *)
 Example C16_example :
   let b := map (fun xy => zxy_to_id 2 (fst xy) (snd xy)) [(0,0);(1,0);(2,0);(2,1);(2,2);(1,2);(0,2);(0,1)] in
@@ -87,3 +118,4 @@ Print Assumptions C16_cover_finest.
 Print Assumptions C16_near.
 Print Assumptions C16_parents.
 Print Assumptions C16_header_bounds.
+Print Assumptions C16_header_center.
